@@ -18,6 +18,9 @@ ADAPTERS = {"map", "filter", "filter_map", "cloned", "copied", "flat_map", "flat
 ORDER_FREE = {"any", "all", "count", "sum", "product", "len", "is_empty", "contains", "min", "max", "sorted", "sort", "sort_unstable",
               "is_subset", "is_superset", "is_disjoint", "eq", "ne", "drop", "drop_in_place", "size_hint", "contains_key",
               "min_by_key", "max_by_key", "hash"}
+INPLACE_SORTS = {"sort_by_key", "sort_by", "sort_by_cached_key", "sort_unstable_by_key", "sort_unstable_by"}
+SORTS = INPLACE_SORTS | {"sorted_by_key", "sorted_by", "sorted_by_cached_key"}
+SORT_KIND = "sort-by-key"     # every spelling of "sort by a key / comparator": ties keep the incoming (hash) order, so the key must be total
 ORDERED_TARGETS = re.compile(r"^(std::result::Result<|std::option::Option<)?(std::vec::Vec<|std::string::String|std::collections::VecDeque<|std::collections::LinkedList<|std::boxed::Box<\[)")
 UNORDERED_TARGETS = re.compile(r"^(std::result::Result<|std::option::Option<)?std::collections::(HashSet|HashMap|BTreeSet|BTreeMap)<")
 
@@ -43,6 +46,7 @@ def origin_of(body, place, ty):
 def analyse_body(mir, body):
     """-> list of sinks: dict(kind, callee, origin, line, cat)"""
     tainted = {}   # local -> origin string
+    parent = {}    # local -> the local it was derived from (moves, references, adapters): to find the container a sink consumes
     # field-projection origins: remember for each local holding a ref to a field
     field_of = {}
     for bb, s in body.stmts():
@@ -65,6 +69,7 @@ def analyse_body(mir, body):
                 if s.rv in ("Use", "Ref", "Cast", "RawPtr") and s.ops and s.ops[0].place is not None and s.ops[0].place.local in tainted:
                     if s.dst.local not in tainted:
                         tainted[s.dst.local] = tainted[s.ops[0].place.local]
+                        parent[s.dst.local] = s.ops[0].place.local
                         changed = True
                 if s.rv == "Aggregate" and s.detail in ("Tuple",) or (s.rv == "Aggregate" and s.detail.startswith("Adt|std::option::Option") ):
                     for o in s.ops:
@@ -106,6 +111,7 @@ def analyse_body(mir, body):
             if name in ADAPTERS:
                 if t.dst.local not in tainted:
                     tainted[t.dst.local] = org
+                    parent[t.dst.local] = tainted_args[0].place.local
                     changed = True
                 continue
             if name in ORDER_FREE:
@@ -114,6 +120,24 @@ def analyse_body(mir, body):
                 continue  # extending a set/map
             if name in ("insert",) and HASH.search(t.argt[0]):
                 continue
+    # in-place sorts of a hash-ordered vector: the sort itself is the (order-sensitive, reviewed) consumer; what reads the vector
+    # afterwards - in blocks the sort dominates - sees the sorted order
+    def root(l):
+        seen = set()
+        while l in parent and l not in seen:
+            seen.add(l)
+            l = parent[l]
+        return l
+    sorted_roots = {}
+    for bb in body.bbs:
+        if bb.cleanup or bb.term.k != "call":
+            continue
+        nm = bb.term.callee.split("::")[-1]
+        if nm in INPLACE_SORTS:
+            for a in bb.term.args[:1]:
+                if a.place is not None and a.place.local in tainted:
+                    sorted_roots.setdefault(root(a.place.local), []).append(bb.idx)
+    dom = body.dominators() if sorted_roots else {}
     # second pass: sinks
     loops = body.natural_loops()
     loop_blocks = set()
@@ -141,7 +165,10 @@ def analyse_body(mir, body):
             continue
         if name in ("extend", "insert") and HASH.search(t.argt[0]):
             continue
-        kind = name
+        r0 = root(tainted_args[0].place.local)
+        if r0 in sorted_roots and name not in INPLACE_SORTS and any(sb != bb.idx and sb in dom.get(bb.idx, ()) for sb in sorted_roots[r0]):
+            continue    # consumed after (dominated by) an in-place sort of the same vector
+        kind = SORT_KIND if name in SORTS else name
         if name == "next" and bb.idx in loop_blocks:
             kind = "for-loop"
         callee_short = re.sub(r"<[^>]*>", "", t.callee)
